@@ -15,12 +15,15 @@ THEOREMS = [
     "c16_rotation_lossless", "c16_rotation_lossless_after_flush", "c16_flush_leaves_nothing_buffered",
     "c16_sync_mode_writes_through", "c16_rotation_gc_history",
     "c16_gc_keeps_newest", "c16_gc_keeps_only_within_bound", "c16_gc_incl", "c16_gc_keeps_current",
+    "c16_extended_program_name_not_listed", "c16_gc_other_programs_untouched", "c16_gc_own_files",
+    "c16_gc_other_loggers_unchanged",
 ]
 REFUTED = ["c16_round_trip_refuted"]
 HEADER = ("From Shk Require Import Base.Prelude Model.LogCodec Model.LogRotate Corr.C16.\n"
           "Open Scope Z_scope.\n")
 LISTS = [("codec_cases", "codec_case", "codec"), ("raw_cases", "raw_case", "raw"),
-         ("probe_cases", "codec_case", "probe"), ("hist_cases", "hist_case", "hist")]
+         ("probe_cases", "codec_case", "probe"), ("hist_cases", "hist_case", "hist"),
+         ("multi_cases", "multi_case", "multi")]
 QUERIES = [
     ("Mfmt", "bad_indices fmt_model_bad codec_cases", "codec"),
     ("Mdec", "bad_indices dec_model_bad codec_cases", "codec"),
@@ -32,6 +35,8 @@ QUERIES = [
     ("Mhist", "bad_indices hist_model_bad hist_cases", "hist"),
     ("Ohist", "bad_indices hist_oracle_bad hist_cases", "hist"),
     ("Oloss", "bad_indices hist_lossless_bad hist_cases", "hist"),
+    ("Mmulti", "bad_indices multi_model_bad multi_cases", "multi"),
+    ("Omulti", "bad_indices multi_oracle_bad multi_cases", "multi"),
 ]
 KNOWN_SIG = "goroutine0-file-digits-space"
 
@@ -172,6 +177,49 @@ def hist_signature(c, lossless_bad):
     return "gc-history-other"
 
 
+def multi_signature(c):
+    """Name what went wrong in a history of several loggers in one directory."""
+    snaps, si = c["Snaps"] or [], 0
+    nprog = len(c["Progs"])
+    prev = [sorted(({"Stamp": p["Stamp"], "Size": p["Size"], "Ids": p["Ids"]} for p in (c.get("Planted") or []) if p["Prog"] == i),
+                   key=lambda f: f["Stamp"]) for i in range(nprog)]
+    pend = [[] for _ in range(nprog)]
+    key = lambda fs: [(f["Stamp"], f["Size"], f["Ids"] or []) for f in (fs or [])]
+    ids = lambda fs: [i for f in (fs or []) for i in (f["Ids"] or [])]
+    for o in c["Ops"]:
+        if o["Op"] == "log":
+            pend[o["Lg"]].append(o["Id"])
+        elif o["Op"] in ("snap", "gc"):
+            if si >= len(snaps):
+                return "shared-directory-other"
+            sn = snaps[si]
+            si += 1
+            for i in range(nprog):
+                v = sn[i]
+                if any(x != i for x in (v["Listed"] or [])) or len(v["Listed"] or []) != len(v["Files"] or []):
+                    return "listing-not-exactly-own-program"
+            for i in range(nprog):
+                fs = sn[i]["Files"]
+                if o["Op"] == "gc" and i != o["Lg"] and key(fs) != key(prev[i]):
+                    return "gc-touched-another-program"
+                if o["Op"] == "gc" and i == o["Lg"]:
+                    if prev[i] and (not fs or fs[-1]["Stamp"] != prev[i][-1]["Stamp"]):
+                        return "gc-deleted-newest"
+                    kept, total = {f["Stamp"] for f in (fs or [])}, 0
+                    for j, f in enumerate(reversed(prev[i])):
+                        total += f["Size"]
+                        if j > 0 and f["Stamp"] in kept and not total < o["Arg"]:
+                            return "gc-kept-beyond-bound"
+                if o["Op"] == "snap" and ids(fs) != ids(prev[i]) + pend[i]:
+                    return "rotation-readback-not-exactly-once-in-order"
+            prev = [sn[i]["Files"] or [] for i in range(nprog)]
+            if o["Op"] == "snap":
+                pend = [[] for _ in range(nprog)]
+    if c.get("HasFetch") and (c.get("Fetch") or []) != ids(prev[0]):
+        return "fetch-entries-mismatch"
+    return "shared-directory-other"
+
+
 def run(tier, seed):
     res = vlib.Result(PID, tier, seed, level="proof")
     res.assumptions = [
@@ -182,6 +230,7 @@ def run(tier, seed):
         "buffered mode: what is in the files before a flush depends on the asynchronous flush daemon and is not compared; files are looked at right after Flush(), or without a flush only while sync mode is on",
         "rotation/GC: a message is (identifier, byte length of its formatted entry); the per-file header entries are a constant size measured by calibration at the start and re-checked at the end of the run; sizes are sizes after log.Flush(); GC runs right after a flush; file names generated by create() are assumed new",
         "header widths are constant only if the goroutine id the logger prints is: the vendored petermattis/goid (2018) reads a runtime status word on go1.23 (2, or 4098 while the GC scans the stack), so the harness runs the logger histories with the Go garbage collector off and discards+redoes a history in whose files two goroutine ids appear (count: distribution.hist_discarded_goid_glitch)",
+        "several loggers in one directory: one mstate component per program, listing = exact match of the parsed Program field, removal by (program, time stamp); host, user and pid parts of the names are those of the process",
         "planted files have distinct time stamps older than the run (sort order of equal stamps is unspecified in selectFiles)",
         "gcOldFiles lists logging.logDir (the main logger's directory) even for a secondary logger: model and harness use secondary loggers in the main logger's directory, which is the only way shakespeare creates them",
     ]
@@ -212,7 +261,7 @@ def run(tier, seed):
     lists = split_cases(cases_v)
     nshards = max(2, min(8 if tier == "quick" else 16, vlib.NCPU))
     vals, bad_out = eval_sharded(tier, lists, nshards, 3000)
-    n_eval = summary["codec"] + summary["raw"] + summary["probe"] + summary["hist"]
+    n_eval = summary["codec"] + summary["raw"] + summary["probe"] + summary["hist"] + summary["multi"]
     res.coverage.update({
         "evaluations": n_eval,
         "distinct_nontrivial": summary["distinct_nontrivial"],
@@ -224,12 +273,15 @@ def run(tier, seed):
                  "probe: 20 kinds of entries outside the guards (white space at message edges, colon/empty/newline file names, negative numbers, years outside 2000-2068, multi-line messages), model agreement only. "
                  "hist: real main/secondary logger in a fresh directory, LogFileMaxSize in {64..4096} around the measured header size, entry sizes steered to the rotation threshold +-2 using the real syncBuffer.nbytes, "
                  "threshold changes, snapshots (flush, list, decode every file), SetSync(true) followed by a flush and a snapshot with no write in between (and SetSync(false) back), looks at the files without a flush while in sync mode, GC runs with bounds at the cumulative sizes +-1 / 0 / MaxInt64, planted older files (empty, zero-filled or holding formatted messages of their own; named after the real or after another host/user so that name order and time-stamp order differ), FetchEntriesFromFiles on the main logger; gc-only: planted file sets + GC. "
-                 "non-trivial = at least two files at the end or a GC run; distinct by operation list."),
+                 "non-trivial = at least two files at the end or a GC run; distinct by operation list. "
+                 "multi: the main logger and one or two secondary loggers (the name of one a prefix of the other's, as the main logger's program name is of both) plus sometimes a program without logger whose name extends the main logger's, all in one directory, "
+                 "older files of any of them planted; interleaved logging with sizes steered to each logger's threshold, GC runs of one logger with small bounds / bounds at its own cumulative sizes +-1, snapshots by scanning the directory and parsing names (not through listLogFiles), "
+                 "what each logger's listLogFiles returns, FetchEntriesFromFiles at the end; non-trivial = at least two loggers wrote and a GC ran."),
         "samples": summary["samples"],
         "distribution": {k: summary[k] for k in ("codec", "codec_entries", "codec_classes", "raw", "raw_kinds", "probe",
-                                                  "local_zone_offset_s", "hist", "hist_error", "hist_discarded_goid_glitch", "hist_log_ops", "hist_gc_ops", "hist_files_at_end", "calibration")},
+                                                  "local_zone_offset_s", "hist", "hist_error", "hist_discarded_goid_glitch", "hist_log_ops", "hist_gc_ops", "hist_files_at_end", "multi", "multi_log_ops", "multi_gc_ops", "calibration")},
         "outside_guard_probes": {"kinds": summary["probe_kinds"], "real_roundtrip_failures": summary["probe_roundtrip_failures"]},
-        "traces_validated_against_impl": summary["hist"],
+        "traces_validated_against_impl": summary["hist"] + summary["multi"],
         "shards": nshards,
     })
     if vals is None:
@@ -272,6 +324,15 @@ def run(tier, seed):
         res.violation(sig, "rotation/GC history on the real %s logger violates the property (%s)" % (c["Logger"], sig),
                       {"kind": "failing-input", "input": c, "index": idx,
                        "replay": "./check C16 --tier %s --seed %d (history %d)" % (tier, seed, idx)})
+    for idx in vals["Omulti"]:
+        c = cases["multi"][idx]
+        sig = "shared-directory:" + multi_signature(c)
+        if sig in seen:
+            continue
+        seen.add(sig)
+        res.violation(sig, "history of several loggers in one directory (%s) violates the property (%s)" % (", ".join(c["Progs"]), sig),
+                      {"kind": "failing-input", "input": c, "index": idx,
+                       "replay": "./check C16 --tier %s --seed %d (multi-logger history %d)" % (tier, seed, idx)})
     if summary.get("hist_error") and not res.violations:
         res.violation(None, "the real loggers could not be driven (rotation/GC part of the check did not run): %s" % summary["hist_error"],
                       {"kind": "harness-hist-error", "error": summary["hist_error"]}, no_input=True)
@@ -279,7 +340,7 @@ def run(tier, seed):
         # model/implementation disagreement without a property failure
         for name, key, wh in (("Mfmt", "codec", "formatter"), ("Mdec", "codec", "decoder"), ("Mraw", "raw", "decoder on perturbed streams"),
                               ("Mpfmt", "probe", "formatter outside the guards"), ("Mpdec", "probe", "decoder outside the guards"),
-                              ("Mhist", "hist", "rotation/GC")):
+                              ("Mhist", "hist", "rotation/GC"), ("Mmulti", "multi", "rotation/GC of several loggers in one directory")):
             if vals[name]:
                 c = cases[key][vals[name][0]]
                 res.violation(None, "model and implementation disagree on the %s (property oracle passes): correspondence %s broken on %d cases" % (wh, name, len(vals[name])),
